@@ -15,7 +15,7 @@ PROP = dict(
     rule="programs: (quick) 160 generated single-thread programs (arithmetic, loops, strings incl. multi-byte and "
          "resumable compare/concat, arrays, function calls, recursion, prints, runtime errors of all four kinds) + 160 "
          "producer/consumer programs (5 shapes, <=3 tasks, <=3 channels, 7 payload kinds, one printing thread, one "
-         "writer and one reader per channel) / (thorough) 1500 + 1500; each run under budget 200000 and under constant "
+         "writer and one reader per channel) / (thorough) 1500 + 1500; each run under one big budget (1000000 for task-free programs, 4000 for task programs: a blocked read is a busy wait) and under constant "
          "budgets {1,2,3,7,100}, 3 random cyclic schedules, 3 random schedules with host delays (extra run_n_steps calls "
          "while a host call is pending) and, for every 4th program, all 3^k budget sequences over {1,2,3} for the first k "
          "calls (k=3 quick, 5 thorough): output, final value, error kind and error text must be identical (spec_fail). "
@@ -40,10 +40,15 @@ PROP = dict(
     ],
     design_ref="DESIGN.md §6 C10",
     level_text="(partial for programs with tasks) Theorems for every deterministic thread step function about a model of Runtime::run_n_steps / "
-               "run_threads_round_robin / finish_thread_turn / drain_new_threads / update_status_helper: budgets add up "
-               "(state, trace, status, steps), any two budget sequences with the same total agree, calls while all threads "
-               "are blocked change nothing; for programs without tasks every embedder schedule (any budgets, any delay in servicing host "
-               "calls) yields the output and state of the reference embedder after the same number of instructions; for programs with tasks "
+               "run_threads_round_robin / finish_thread_turn / drain_new_threads / update_status_helper, for every runtime state "
+               "satisfying NoDone (no finished thread and no failed task waits in a queue - an invariant of Runtime::new and of every "
+               "operation, and needed: C10.lean explains the unreachable counterexample): budgets add up (state, trace, status, steps) "
+               "unless the first call is the one in which main finished, any two budget sequences with the same total agree (no host "
+               "servicing in between), calls while all threads are blocked and nothing waits to be enqueued change nothing, "
+               "run()/run_with_granularity(n) return the state and status of run_n_steps(k*n) whenever they return; for programs without "
+               "tasks (the step function never spawns, started on Runtime::new) every embedder schedule (any budgets, any delay in servicing host "
+               "calls) yields, up to servicing a still pending call, the output and state of the reference embedder after the same number of "
+               "instructions, and two schedules that both ran the program to its end agree completely; for programs with tasks "
                "two proved counterexamples (known findings C10-task-print-race, C10-channel-merge-race). The model is tied to /repo on every run by trace validation through a cfg-guarded "
                "event log, and the property is checked directly on the implementation across schedules.",
     level_note="PARTIAL for the second sentence of the property: independence of the output from slicing for task programs that "
